@@ -683,14 +683,14 @@ def check_idx_pairing(P, R, rid):
                 site = ('append', a.value.func.value.id)
                 want = lambda st, nd: isinstance(st, ast.AugAssign) and isinstance(st.op, ast.Add) and src(st.target) == f'{nd}[IDX]'
                 wtxt = 'IDX += key'
-                cond_ok = cond_is_token(a, positive=True)
+                cond_ok = cond_is_token(a, positive=True, f=f)
             elif isinstance(a, ast.Expr) and isinstance(a.value, ast.Call) and call_attr(a.value) == 'insert' and isinstance(a.value.func.value, ast.Name) \
                     and a.value.args and src(a.value.args[0]) == 'OFFSET':
                 site = ('insert', a.value.func.value.id)
                 want = lambda st, nd: isinstance(st, ast.Assign) and src(st.targets[0]) == f'{nd}[IDX]' and isinstance(st.value, ast.BinOp) \
                     and isinstance(st.value.op, ast.Add) and src(st.value.right) == f'{nd}[IDX]' and '[0]' in src(st.value.left)
                 wtxt = 'IDX = key[0] + IDX'
-                cond_ok = cond_is_token(a, positive=False)
+                cond_ok = cond_is_token(a, positive=False, f=f)
             elif isinstance(a, ast.Delete) and len(a.targets) == 1 and isinstance(a.targets[0], ast.Subscript) \
                     and isinstance(a.targets[0].value, ast.Name) and 'OFFSET' in src(a.targets[0].slice):
                 nd = a.targets[0].value.id
@@ -763,9 +763,12 @@ def check_idx_pairing(P, R, rid):
     # a wildcard node is never merged with its child, nor a node with its wildcard child
     gtests = [n for n in tm.cfg.nodes if n.kind == 'test']
     gsrc = ' '.join(src(n.ast) for n in gtests).replace(' ', '')
+    fold_nodes = [tm.cfg.node_of_stmt(w_)[0] for w_ in whole]
+    facts = [(e_, h_) for fn_ in fold_nodes for (e_, h_, _t) in T.guard_atoms(tm, fn_)]
     for (slot, what) in (('KEY', 'the node itself is a wildcard'), ('IDX', 'its only child is a wildcard')):
-        ok = any(compare_parts(x) and compare_parts(x)[1] is ast.Eq and slot_name(compare_parts(x)[0]) == slot and 'param_token' in src(compare_parts(x)[2])
-                 for n in gtests for x in ast.walk(n.ast))
+        # at the fold, `node[SLOT] == token` is known to be false (or `!=` known to be true)
+        ok = any(compare_parts(e_) and slot_name(compare_parts(e_)[0]) == slot and 'param_token' in src(compare_parts(e_)[2]) and
+                 ((compare_parts(e_)[1] is ast.Eq and not h_) or (compare_parts(e_)[1] is ast.NotEq and h_)) for (e_, h_) in facts)
         R.ob(rid, tm, gtests[0].ast if gtests else tm.node, ok, text=f'_try_merge refuses to merge when {what} ([{slot}] == param_token)', detail='' if ok else
              f'_try_merge no longer refuses when {what}: after a removal the wildcard node is fused with a literal sibling, its filter is lost and '
              f'the literal text after the wildcard is no longer checked',
@@ -773,12 +776,16 @@ def check_idx_pairing(P, R, rid):
     R.require(n_sites >= 6, f'{n_sites} child-list mutation sites found (6 on the pinned tree)')
 
 
-def cond_is_token(stmt, positive):
+def cond_is_token(stmt, positive, f=None):
     t = enclosing(stmt, ast.If)
     if t is None:
         return False
     cp = compare_parts(t.test)
-    if not cp or cp[1] is not ast.Eq or 'param_token' not in src(cp[2]):
+    rhs = src(cp[2]) if cp else ''
+    if cp and f is not None and 'param_token' not in rhs:
+        ns_ = f.cfg.nodes_for(t.test)
+        rhs = T.xsrc(f, cp[2], ns_[0]) if ns_ else rhs          # a local copy of self.param_token
+    if not cp or cp[1] is not ast.Eq or 'param_token' not in rhs:
         return False
     in_body = T._inside(stmt, t.body)
     return in_body if positive else not in_body
